@@ -1,10 +1,27 @@
+T = "SymVerif.C32."
 SPEC = dict(
     id="C32",
     level="partial",
     lean_props="SymVerif.Props.C32",
     driver="C32",
     harness="c32.cpp",
-    theorems=[
+    theorems=[T + n for n in [
+        "powModNat_eq", "isPrime_iff",
+        "quotient_mod_spec", "quotient_mod_f_spec", "mod_inverse_spec",
+        "fib_spec", "fib2_spec", "lucas_spec", "factorial_spec", "binomial_spec", "binomial_neg_spec",
+        "divides_spec",
+        "pfm_spec", "pfm_total", "totient_spec", "carmichael_spec", "mobius_spec", "mertens_spec",
+        "multiplicative_order_spec",
+        "crt_spec", "crt_least", "crt_total",
+        "powermod_spec",
+        "primitive_root_prime_partial",
+        "jacobi_spec",
+        "harmonic_spec", "harmonic_one_spec", "polygonal_spec",
+    ]],
+    partial=[
+        "primitive_root_prime_partial: proved for prime moduli (least primitive root); p^k and 2p^k spec-compared",
+        "nthroot_mod / nthroot_mod_list / is_nth_residue / is_quad_residue / powermod with rational exponent: "
+        "spec-compared (exhaustive m<=200, n<=12 against brute-force Lean definitions) - no general proof",
     ],
     rule="one op = one call (nt) or one sweep of calls over an interval of the first argument (sw); spec/swspec ops "
          "compare the library with brute-force Lean definitions; distinct = distinct op lines; non-trivial = all",
